@@ -126,7 +126,12 @@ class Cov(np.ndarray):
         if isinstance(frame, str) and frame not in _local:
             frame = get_frame(frame)
 
-        if frame == self.frame:
+        # The current frame may have been given by its name
+        current = self.frame
+        if isinstance(current, str) and current not in _local:
+            current = get_frame(current)
+
+        if frame == current:
             # The frame is the same as the current one
             return
 
@@ -137,10 +142,10 @@ class Cov(np.ndarray):
         # rotation from the parent frame to the target frame
 
         # Handle previous frame to parent frame conversion
-        if self.frame in ("TNW", "QSW"):
-            m1 = to_local(self.frame, self.orb).T
-        elif self.frame != self._orb_frame:
-            m1 = self.frame.orientation.convert_to(
+        if current in _local:
+            m1 = to_local(current, self.orb).T
+        elif current != self._orb_frame:
+            m1 = current.orientation.convert_to(
                 self.orb.date, self._orb_frame.orientation
             )
         else:
